@@ -200,3 +200,24 @@ def check_accumulate(ctx, rule: str, S: Summary, out_name: str, roles: Dict[str,
     if ok:
         ctx.ob(rule, inst, True, detail={"index": [repr(x) for x in want_idx], "term": short(want_val), "loops": [repr(l) for l in loops]})
     return ok
+
+
+def scalar_accumulations(S: Summary, name: str) -> List[Store]:
+    """pseudo-stores for the in-loop updates (`name += term`) of a scalar accumulator"""
+    out = []
+    for (nm, v, op, g, l, n) in S.assigns:
+        if nm == name and op != "=":
+            out.append(Store(name, (), v, op, g, l, n, True, S.func))
+    return out
+
+
+def scalar_resets(S: Summary, name: str):
+    return [(v, g, l, n) for (nm, v, op, g, l, n) in S.assigns if nm == name and op == "="]
+
+
+def acc_name_of(v) -> Optional[str]:
+    """if a stored value is (a phi of) a havocked accumulator `name~`, return name"""
+    if not isinstance(v, Poly):
+        return None
+    names = {a[1][:-1] for a in v.all_atoms() if a[0] == "s" and a[1].endswith("~")}
+    return names.pop() if len(names) == 1 else None
